@@ -15,7 +15,7 @@ VARIANTS = [
     fire("c20-circuit-ignores-usepulses", [(CI, "                and self.usepulses == other.usepulses\n", "")], ("C20.1", "Circuit:__eq__:_usepulses"), P),
     fire("c20-gate-bare-zip", [(GA, "                for sparam, oparam in zip_longest(\n", "                for sparam, oparam in zip(\n")], ("C20.2", "GateStatement:__eq__:pairing"), P),
     fire("c20-qubit-ignores-index", [(RG, "                and self.alias_index == other.alias_index\n", "")], ("C20.1", "NamedQubit:__eq__:_alias_index"), P),
-    fire("c20-register-ignores-slice", [(RG, "                    self.alias_from == other.alias_from\n                    and self.alias_slice == other.alias_slice", "                    self.alias_from == other.alias_from")], ("C20.1", "Register:__eq__:_alias_slice"), P),
+    fire("c20-register-ignores-slice", [(RG, "                if mine.alias_slice != theirs.alias_slice:\n                    return False\n", "")], ("C20.1", "Register:__eq__:_alias_slice"), P),
     fire("c20-constant-ignores-value", [(CO, "            return self.name == other.name and self.value == other.value", "            return self.name == other.name")], ("C20.1", "Constant:__eq__:_value"), P),
     fire("c20-macro-not-total", [(MA, "        try:\n            return (\n                self.name == other.name\n                and self.parameters == other.parameters\n                and self.body == other.body\n            )\n        except AttributeError:\n            return False", "        return (\n            self.name == other.name\n            and self.parameters == other.parameters\n            and self.body == other.body\n        )")], ("C20.3", "Macro:__eq__:total"), P),
     fire("c20-body-by-identity", [(MA, "                and self.body == other.body", "                and self.body is other.body")], ("C20.4", "Macro:__eq__:by-value"), P),
@@ -31,6 +31,6 @@ RG20 = "src/jaqalpaq/core/register.py"
 VARIANTS += [
     # reverting fix 7f8b052
     fire("c20-register-eq-case-split-one-sided",
-         [(RG20, "            if self.fundamental != other.fundamental:\n                # A register never equals an alias, even one of the same size\n                return False\n", "")],
+         [(RG20, "                if mine.fundamental != theirs.fundamental:\n                    # A register never equals an alias, even one of the same size\n                    return False\n", "")],
          ("C20.7", "Register:__eq__:case-split:fundamental"), ("C20",)),
 ]
